@@ -40,6 +40,11 @@ fn non_ascii_levels() -> Vec<Level> {
             out.push(fam::leaf(vec![mk('ñ', Kind::Switch), mk('é', Kind::Count), mk('o', ak)], tail));
         }
     }
+    // a valued item whose short name sits at a boundary of the UTF-8 lead-byte classes
+    // (C2 / DF | E0 / E1 / ED / EE / EF | F0 / F1 / F4)
+    for c in ['\u{a1}', '\u{7fa}', '\u{800}', '\u{e01}', '\u{1100}', '\u{d7ff}', '\u{e000}', '\u{fffc}', '\u{10000}', '\u{1f980}', '\u{40000}', '\u{100000}'] {
+        out.push(fam::leaf(vec![mk('s', Kind::Switch), mk(c, Kind::ArgOpt)], fam::pos(&[PosKind::Opt])));
+    }
     out
 }
 
